@@ -560,10 +560,12 @@ class ReloadStream(SchedStream):
             for _attempt in range(3):
                 reload_ext.reset_run()
                 r = driver.run_many([c], home)[0]
-                # (the ZMQ server thread's start-up barrier times out when the machine is overloaded: not cylc's fault)
-                if "BrokenBarrierError" not in str(r["meta"].get("error")):
+                # an error that does not repeat is the overloaded machine's (e.g. the ZMQ server thread's start-up
+                # barrier timing out); one that repeats three times is reported
+                if not r["meta"].get("error"):
                     return r
-            r["meta"]["flaky"] = True
+            if "BrokenBarrierError" in str(r["meta"].get("error")):
+                r["meta"]["flaky"] = True
             return r
         out = []
         for c in cases:
